@@ -21,8 +21,16 @@ NEAR = [b"GET / HTTP/1.1\r\nHost x\r\n\r\n", b"GET / HTTP/1.1\r\nHost:x\r\n\r\n"
         b"GET / HTTP/1.1\r\nHost{0} {x}\r\n\r\n", b"GET / HTTP/1.1\r\n{}\r\n\r\n", b"{0} / HTTP/1.1\r\n\r\n", b"GET / {x}/1.1\r\n\r\n", b"GET / HTTP/{0}\r\n\r\n",
         b"POST / HTTP/1.1\r\nTransfer-Encoding: chunked\r\n\r\n{0}\r\n", b"POST / HTTP/1.1\r\nTransfer-Encoding: chunked\r\n\r\n1\r\na{x}%s\r\n",
         b"POST / HTTP/1.1\r\nContent-Length: {0}\r\n\r\n",
+        # obs-fold: a FIRST header / trailer line that starts with white space (no previous header to continue)
+        b"GET / HTTP/1.1\r\n X: 1\r\n\r\n", b"GET / HTTP/1.1\r\n\tX: 1\r\nHost: h\r\n\r\n", b"GET / HTTP/1.1\r\n \t  folded\r\n\r\n", b"GET / HTTP/1.1\n continued\n\n",
+        b"GET / HTTP/1.1\r\nA: 1\r\n B: 2\r\n\tmore\r\n\r\n",
+        b"POST / HTTP/1.1\r\nTransfer-Encoding: chunked\r\n\r\n1\r\na\r\n0\r\n T: v\r\n\r\n", b"POST / HTTP/1.1\r\nTransfer-Encoding: chunked\r\n\r\n0\r\n\tT: v\r\nU: w\r\n\r\n",
+        b"POST / HTTP/1.1\r\nTransfer-Encoding: chunked\r\n\r\n0\r\n  \r\n\r\n",
         b"GET / HTTP/1.1\r\n: v\r\n\r\n", b"GET / HTTP/1.1\r\nContent-Type: application/json; charset=\r\nContent-Length: 1\r\n\r\n{"]
-RESP_NEAR = [b"HTTP/1.1 {0} OK\r\n\r\n", b"{x}/1.1 200 OK\r\n\r\n", b"HTTP/{} 200 OK\r\n\r\n", b"HTTP/1.1 200 OK\r\nX{0}%s\r\n\r\n",
+RESP_NEAR = [b"HTTP/1.1 200 OK\r\n X: 1\r\nContent-Length: 0\r\n\r\n", b"HTTP/1.1 200 OK\r\n\tfolded\r\n\r\n", b"HTTP/1.1 200 OK\n \t continued\nContent-Length: 0\n\n",
+             b"HTTP/1.1 100 Continue\r\n I: 1\r\n\r\nHTTP/1.1 200 OK\r\nContent-Length: 0\r\n\r\n", b"HTTP/1.1 200 OK\r\nA: 1\r\n B: 2\r\nContent-Length: 0\r\n\r\n",
+             b"HTTP/1.1 200 OK\r\nTransfer-Encoding: chunked\r\n\r\n1\r\na\r\n0\r\n T: v\r\n\r\n", b"HTTP/1.1 200 OK\r\nTransfer-Encoding: chunked\r\n\r\n0\r\n\tT: v\r\n\r\n",
+             b"HTTP/1.1 {0} OK\r\n\r\n", b"{x}/1.1 200 OK\r\n\r\n", b"HTTP/{} 200 OK\r\n\r\n", b"HTTP/1.1 200 OK\r\nX{0}%s\r\n\r\n",
              b"HTTP/1.1 200 OK\r\nTransfer-Encoding: chunked\r\n\r\n{0}\r\n", b"HTTP/1.1 200 OK\r\nTransfer-Encoding: chunked\r\n\r\n1\r\na{x}\r\n",
              b"HTTP/1.1 302 F\r\nLocation: http://h:99999/{id}\r\nContent-Length: 0\r\n\r\n", b"HTTP/1.1 302 F\r\nLocation: http://[::1/{0}{}%s\r\nContent-Length: 0\r\n\r\n",
              b"HTTP/1.1 302 F\r\nLocation: /rel/{x}\r\nContent-Length: 0\r\n\r\n", b"HTTP/1.1 302 F\r\nLocation: http://{0}.invalid/\r\nContent-Length: 0\r\n\r\n",
